@@ -23,7 +23,6 @@
 #include <string.h>
 #include <errno.h>
 #include <setjmp.h>
-#include <signal.h>
 #include <time.h>
 #include <unistd.h>
 #include <limits.h>
@@ -82,11 +81,27 @@ static void hook(int pt, const void * a, const void * b, long v) {
   }
 }
 
-static void on_alarm(int sig) {
-  static const char msg[] = "HANG\n";
-  (void)sig;
-  if (write(1, msg, sizeof msg - 1)) {}
-  _exit(3);
+/* watchdog: a plain OS thread (the library is built without pthread wrapping); an operation that
+   does not finish within 30 s of real time ends the process with "HANG" and exit code 3 */
+#include <pthread.h>
+static volatile long op_serial;       /* incremented at the start and the end of every operation */
+static void * watchdog(void * arg) {
+  long last = -1; int same = 0;
+  (void)arg;
+  for (;;) {
+    struct timespec t = { 0, 250000000 };
+    long cur;
+    while (nanosleep(&t, &t) != 0) { }
+    cur = op_serial;
+    if ((cur & 1) && cur == last) same++; else same = 0;
+    last = cur;
+    if (same >= 120) {
+      static const char msg[] = "HANG\n";
+      if (write(1, msg, sizeof msg - 1)) {}
+      _exit(3);
+    }
+  }
+  return 0;
 }
 
 /* ---- background threads ---- */
@@ -160,7 +175,7 @@ int main(void) {
   static char line[200000];
   g_myth_verif_clock = vclock;
   g_myth_verif_hook = hook;
-  signal(SIGALRM, on_alarm);
+  { pthread_t wd; pthread_create(&wd, 0, watchdog, 0); }
   myth_init();
   while (fgets(line, sizeof line, stdin)) {
     char * bar = strchr(line, '|');
@@ -168,7 +183,7 @@ int main(void) {
     if (bar) *bar++ = 0;
     for (t = strtok_r(line, " \t\n", &save); t && n < 16; t = strtok_r(0, " \t\n", &save)) w[n++] = t;
     if (n == 0) continue;
-    alarm(60);
+    op_serial++;      /* odd: an operation is running */
     if ((!strcmp(w[0], "add") || !strcmp(w[0], "gt")) && n == 5) {
       struct timespec a, b, c;
       a.tv_sec = strtol(w[1], 0, 10); a.tv_nsec = strtol(w[2], 0, 10);
@@ -180,7 +195,7 @@ int main(void) {
       int nbg = o ? atoi(o) : 0, i; long ret = -1; volatile int abandoned = 0;
       myth_thread_t bgt[16]; long p0;
       if (nbg > 16) nbg = 16;
-      if (parse_readings(bar)) { printf("bad-op\n"); fflush(stdout); continue; }
+      if (parse_readings(bar)) { printf("bad-op\n"); fflush(stdout); op_serial++; continue; }
       bg_stop = 0;
       for (i = 0; i < nbg; i++) bgt[i] = myth_create(bg_main, 0);
       begin_op();
@@ -207,7 +222,7 @@ int main(void) {
       struct timespec abs; long ret = -1; volatile int abandoned = 0; myth_thread_t h;
       const char * o = optval(w, n, "hold");
       abs.tv_sec = strtol(w[1], 0, 10); abs.tv_nsec = strtol(w[2], 0, 10);
-      if (parse_readings(bar)) { printf("bad-op\n"); fflush(stdout); continue; }
+      if (parse_readings(bar)) { printf("bad-op\n"); fflush(stdout); op_serial++; continue; }
       myth_mutex_init(mtx, 0);
       hold_script = o ? o : ""; hold_stop = 0;
       h = myth_create(holder_main, 0);   /* the child runs first: action 0 is done before we go on */
@@ -226,7 +241,7 @@ int main(void) {
       struct timespec abs; long ret = -1; volatile int abandoned = 0; myth_thread_t th;
       const char * o = optval(w, n, "k"); long k = o ? strtol(o, 0, 10) : 0; void * val = 0;
       abs.tv_sec = strtol(w[1], 0, 10); abs.tv_nsec = strtol(w[2], 0, 10);
-      if (parse_readings(bar)) { printf("bad-op\n"); fflush(stdout); continue; }
+      if (parse_readings(bar)) { printf("bad-op\n"); fflush(stdout); op_serial++; continue; }
       th = myth_create(target_main, (void *)k);
       begin_op();
       if (setjmp(abandon) == 0) {
@@ -271,8 +286,9 @@ int main(void) {
         /* a timeout is early only if both clocks say the deadline had not been reached */
         printf("ret=%ld early=%d\n", ret, (ret != 0 && er < need && em < need) ? 1 : 0);
         fflush(stdout);
+        op_serial++;
         continue;
-      } else { printf("bad-op\n"); fflush(stdout); continue; }
+      } else { printf("bad-op\n"); fflush(stdout); op_serial++; continue; }
       clock_gettime(CLOCK_REALTIME, &r1); clock_gettime(CLOCK_MONOTONIC, &m1);
       er = elapsed_ns(&r0, &r1); em = elapsed_ns(&m0, &m1);
       printf("ret=%ld early=%d\n", ret, (ret == 0 && er < need && em < need) ? 1 : 0);
@@ -280,8 +296,8 @@ int main(void) {
       printf("bad-op\n");
     }
     fflush(stdout);
+    op_serial++;
   }
-  alarm(0);
   myth_fini();
   return 0;
 }
